@@ -955,6 +955,27 @@ theorem canTranspile_true_iff (E : Env σ) (w : World σ) (m : Str) : canTranspi
               · rw [ht] at ho; injection ho with ho; injection ho with ho; subst ho
                 exact fun e => hne e.symm
 
+/-- the decision itself, without any hypothesis: a skipped module has an output file whose header parses and whose identity
+    equals the identity of the header built from the current inputs -/
+theorem canTranspile_false_decision (E : Env σ) (w : World σ) (m : Str) (h : canTranspile E w m = .ok false) :
+    ∃ p f old, outputFilepath w.cfg m = .ok p ∧ w.files p = some f ∧
+      tryFromContent E.loads w.ver.app f.content = .ok (some old) ∧
+      E.md5 (curHeader E w.ver (w.src m) m).toJson = E.md5 old.toJson := by
+  cases hp : outputFilepath w.cfg m with
+  | error e => simp [canTranspile, tryLoadMetaHeader, hp] at h
+  | ok p =>
+    cases hf : w.files p with
+    | none => simp [canTranspile, tryLoadMetaHeader, hp, hf] at h
+    | some f =>
+      cases ht : tryFromContent E.loads w.ver.app f.content with
+      | error e => simp [canTranspile, tryLoadMetaHeader, hp, hf, ht] at h
+      | ok o =>
+        cases o with
+        | none => simp [canTranspile, tryLoadMetaHeader, hp, hf, ht] at h
+        | some old =>
+          simp only [canTranspile, tryLoadMetaHeader, hp, hf, ht, Except.ok.injEq, Header.identity] at h
+          exact ⟨p, f, old, rfl, hf, ht, by simpa using h⟩
+
 /-! ### `module_meta_factory`: exact lookup in the module list -/
 
 theorem metaLookup_first (mps : List ModPath) (m : Str) (mp : ModPath) (h : metaLookup mps m = .ok mp) :
